@@ -920,9 +920,11 @@ def check_c12(tier: str) -> int:
             ck.violation("an exception from a subscriber reached the loop's handler", dict(replay, kind="unhandled", trigger={"class": "unhandled"}))
         d = CT.first_difference(iper, isnap, mper, msnap, script)
         if d:
-            ck.violation("client core model and implementation disagree",
-                         dict(replay, kind="correspondence", first_difference=d,
-                              correspondence=f"coq/api/Core.v + Client{gen}.v (model case 60) vs pyairtouch.at{gen}.api"), found_input=False)
+            dist["correspondence_disagreements"] += 1
+            if dist["correspondence_disagreements"] <= 2:      # (leave room among the reported violations for failing inputs)
+                ck.violation("client core model and implementation disagree",
+                             dict(replay, kind="correspondence", first_difference=d,
+                                  correspondence=f"coq/api/Core.v + Client{gen}.v (model case 60) vs pyairtouch.at{gen}.api"), found_input=False)
     in_flight_subscriptions(ck, dist)
     ck.extra["input_distribution"] = dict(sorted(dist.items()))
     ck.sample("zone 2 of AC 0 changes: zone subscriber and AC general subscribers invoked, AC-state-only subscriber not")
